@@ -188,6 +188,11 @@ func c06alphabet(t uint64) []c06sym {
 	a = append(a, c06sym{ev: evAppend(t+1, 3, 3, 0, 0, nil, 0, 0, nil), durOps: 1, kind: 3})
 	a = append(a, c06sym{ev: evRestart(), kind: 7})
 	a = append(a, c06sym{ev: evElect(0, nil), durOps: 3, kind: 6})
+	// InstallSnapshot from a sender of the server's own term, and from a sender of an OLDER term whose snapshot lies far beyond
+	// the server's log (a deposed leader still streaming): the stale one is refused and changes nothing - not the term, not
+	// the advertised leader, not the log
+	a = append(a, c06sym{ev: evInstall(t, 3, 3, 12, t, cfgSAB, 1, []uint64{71, 72}, false, 0, nil), durOps: 3, kind: 4})
+	a = append(a, c06sym{ev: evInstall(t-1, 2, 2, 50, t-1, cfgSAB, 1, []uint64{73}, false, 0, nil), durOps: 3, kind: 4})
 	return a
 }
 
